@@ -80,6 +80,7 @@ pub fn vx_div10_i64(x: i64) -> (r: i64) ensures (x >= 0 ==> 0 <= r <= x), (x < 0
 //@   spec
 //@|    requires frac_digits(timestamp) <= 18, // the regexes of the converter capture `-?\d+\.\d{6}`: 6 digits after the dot (any number before it)
 //@|    ensures true, // O:asc.time.no_panic
+//@|        r > i64::MIN, // O:asc.time.range (the result can be negated: timestamp_dms_from does)
 //@   hint start
 //@|    proof { lemma_pow10(); }
 //@   loop 1
